@@ -160,7 +160,10 @@ def inline_helpers(crate):
             # byte, a radix letter ...) is evaluated in place, so that its instances are told apart by their arguments
             if d.split("::")[-1] in SKELETON_VOCABULARY or not ptys or any("Node" in t or "Vec<" in t for t in ptys):
                 continue
-        if ret.startswith("core::result::Result<(&") and len(b["params"]) <= 1 and d not in parse_parts:
+        if ret.startswith("core::result::Result<(&") and len(b["params"]) <= 1 and d not in parse_parts \
+                and (not ptys or "[u8]" in ptys[0]) and "[u8]" in ret.split(",")[0]:
+            # (a private helper that merely returns a pair behind a Result - `fn integer_literal(&self) -> Result<(&str, u32), _>` -
+            # is not a parser: it takes no byte slice and hands no remainder back)
             continue
         out[hir.base_path(d)] = {"params": b["params"], "value": hir.async_full(b["value"]), "def": d, "generics": b.get("generics") or []}
     _inl[key] = out
